@@ -49,6 +49,11 @@ def main():
         logging.getLogger().setLevel(logging.DEBUG)
         for name in ('scipp', 'scipp.neutron', 'scippneutron'):
             logging.getLogger(name).setLevel(logging.DEBUG)
+    if shard.get('env_variant') == 'strict caller':
+        from rv.trace import Tracer
+
+        Tracer.strict = {'divide': 'raise', 'over': 'raise', 'invalid': 'raise', 'under': 'raise',
+                         **shard.get('strict_numpy', {})}
     if shard.get('env_variant') == 'python -OO' and __debug__:
         ctx.inconclusive_because('the -OO variant shard did not run with asserts stripped')
     reach = None
